@@ -33,9 +33,28 @@ Print Assumptions C10_lookup_follows_policy_any_names.
    successful lookup every name of the call is overridden, hence answered by policy step 1 *)
 Theorem C10_found_names_all_overridden : forall w o st names kw d st1,
   lookup w o st names kw = (OFound d, st1) ->
-  forall n, In n names -> n <> [] -> assoc n (s_over st1) <> None.
+  forall n, In n names -> n <> [] -> assoc (ident (k_static kw) n) (s_over st1) <> None.
 Proof. exact found_names_all_overridden. Qed.
 Print Assumptions C10_found_names_all_overridden.
+
+(* Identifiers are (name, static): a fallback subproject that registers its dependency with
+   meson.override_dependency(n, d) is found by the dependency() call that configured it - for
+   every `static:` of the call and every default_library set globally, per subproject or in
+   default_options (the subproject is configured with the default_library that `static:`
+   forces, so the override lands under the identifier that is looked up). *)
+Theorem C10_fallback_override_found : forall w o st n kw s var sd k v,
+  reach w o st -> n <> [] -> bad_name n = false -> fallback_named kw ->
+  fallback_of w o st n kw = FbSub s var -> s <> [] ->
+  assoc s (s_subs st) = None ->
+  (forall sk, assoc (ident sk n) (s_over st) = None) ->
+  (forced o n s = true \/
+   (system_dep w n (k_version kw) = None /\ is_nofallback (o_wrap_mode o) = false)) ->
+  assoc s (w_subs w) = Some sd -> sd_fails sd = false ->
+  sd_overrides sd = [(n, None, Found k v)] ->
+  check_version (k_version kw) v = true ->
+  fst (lookup w o st [n] kw) = OFound (Found k v).
+Proof. exact fallback_override_found. Qed.
+Print Assumptions C10_fallback_override_found.
 
 (* "Repeated lookups with the same arguments within one configuration return the same
    dependency": after a dependency() call - any number of names, any keyword arguments -
